@@ -341,6 +341,16 @@ class Model:
                         mod.classes[st.name] = ci
                         self.all_classes.append(ci)
                         visit_body(st.body, ci, None)
+                elif isinstance(st, ast.If) and dotted(st.test) in ("TYPE_CHECKING", "typing.TYPE_CHECKING") and st.orelse:
+                    # typing stubs shadowed at run time by the else-branch: only the run-time definitions count
+                    runtime = set()
+                    for x in st.orelse:
+                        if isinstance(x, (ast.Import, ast.ImportFrom)):
+                            runtime |= {(a.asname or a.name).split(".")[0] for a in x.names}
+                        elif isinstance(x, (ast.FunctionDef, ast.ClassDef)):
+                            runtime.add(x.name)
+                    visit_body([x for x in st.body if not (isinstance(x, (ast.FunctionDef, ast.ClassDef)) and x.name in runtime)], cls, parent)
+                    visit_body(st.orelse, cls, parent)
                 elif isinstance(st, (ast.If, ast.Try)):
                     # `if TYPE_CHECKING:` imports, try/except imports
                     for sub in _sub_bodies(st):
